@@ -32,6 +32,7 @@ pub fn dispatch(id: &str, tier: Tier, seed: u64, extra: &[String]) -> i32 {
         "C06" => c06::run(&Ctx::new("C06", tier, seed)),
         "C07" => c07::run(&Ctx::new("C07", tier, seed)),
         "C08" => c08::run(&Ctx::new("C08", tier, seed)),
+        "C07-storm" => c07::storm_child(seed, extra.get(0).and_then(|s| s.parse().ok()).unwrap_or(100_000)),
         "C09" => c09::run(&Ctx::new("C09", tier, seed)),
         "C10" => c10::run(&Ctx::new("C10", tier, seed)),
         "golden-write" => c10::golden_write(&Ctx::new("C10", tier, seed)),
